@@ -7,7 +7,7 @@
    (Independence). *)
 From Coq Require Import ZArith List Bool Lia.
 From Mistletoe Require Import Base.Sx Base.PyStr Base.PyText Gen.GenRegex Gen.GenConfig Re.ReMatch Model.CoreTokens Model.Block Proofs.ReFirst
-     Proofs.BlockProgress Proofs.Independence Proofs.QuoteLaw Proofs.ListLaw Proofs.ListLaw2 Proofs.FenceLaw Proofs.Prose Proofs.PlainProse Proofs.ProseLines Proofs.HeadingLaw Proofs.SetextLaw Proofs.ThematicLaw Proofs.InertProse Proofs.EmphSimple Proofs.EmphSentence Proofs.RefSentence Proofs.LinkSentence Proofs.MixPhrases Proofs.CodeSpan Proofs.HardBreaks Proofs.BreakBlocks Spec.Fragment.
+     Proofs.BlockProgress Proofs.Independence Proofs.QuoteLaw Proofs.ListLaw Proofs.ListLaw2 Proofs.FenceLaw Proofs.Prose Proofs.PlainProse Proofs.ProseLines Proofs.HeadingLaw Proofs.SetextLaw Proofs.ThematicLaw Proofs.InertProse Proofs.EmphSimple Proofs.EmphSentence Proofs.RefSentence Proofs.LinkSentence Proofs.MixPhrases Proofs.CodeSpan Proofs.HardBreaks Proofs.BreakBlocks Proofs.StrikeSentence Proofs.EscSentence Proofs.ImageSentence Proofs.LeafSpans Spec.Fragment Proofs.OneInline.
 Import ListNotations.
 Local Open Scope Z_scope.
 
@@ -151,6 +151,9 @@ Fixpoint wf_b (t : ftree) : bool :=
     code_ok (c0 :: pre) code post && plain_first c0 && nomatch fl_block_token_ListItem_pattern re_block_token_ListItem_pattern c0 &&
     negb (is_space_c (last (c0 :: tick_body pre code post) 0))
   | FBrk c body k more => brk_para_b ((c :: body, k) :: more)
+  | FOne c0 pre x post =>
+    inl_ok (c0 :: pre) x post && plain_first c0 && nomatch fl_block_token_ListItem_pattern re_block_token_ListItem_pattern c0 &&
+    negb (is_space_c (last (c0 :: one_body pre x post) 0))
   end.
 
 (* ---- the text of the spelled forms ---- *)
@@ -277,7 +280,7 @@ Section Chain.
 
   Lemma pre_of_chain : forall t ln, is_item t = true -> wf_b t = true -> pre_of md ln t = PList ln (chain_items ln t).
   Proof.
-    induction t as [| | | mk pad ts | mk pad ts bl next IH | | | | | | | ]; intros ln Hi Hw; try discriminate.
+    induction t as [| | | mk pad ts | mk pad ts bl next IH | | | | | | | | ]; intros ln Hi Hw; try discriminate.
     - reflexivity.
     - rewrite pre_of_more. cbv zeta. cbn [wf_b] in Hw. repeat rewrite andb_true_iff in Hw. destruct Hw as [[[_ Hin] _] Hwn].
       rewrite (IH _ Hin Hwn). reflexivity.
@@ -599,6 +602,43 @@ Section Main.
     intros Hw. rewrite (fbrk_text _ _ _ _ Hw). cbn [pre_of]. cbn [wf_b] in Hw. apply (brk_block types Hp f _ ln st Hw).
   Qed.
 
+  (* ---- FOne: a one-line paragraph with a struck-through phrase, a backslash escape or an image ---- *)
+  Definition one_line (c0 : Z) (pre : str) (x : inl) (post : str) : str := c0 :: one_body pre x post.
+
+  Lemma one_wf c0 pre x post : wf_b (FOne c0 pre x post) = true ->
+    inl_ok (c0 :: pre) x post = true /\ plain_first c0 = true /\
+    nomatch fl_block_token_ListItem_pattern re_block_token_ListItem_pattern c0 = true /\ is_space_c (last (one_line c0 pre x post) 0) = false.
+  Proof.
+    cbn [wf_b]. intros H. repeat rewrite andb_true_iff in H. destruct H as [[[H1 H2] H3] H4]. apply negb_true_iff in H4. repeat split; assumption.
+  Qed.
+
+  Lemma one_no c c0 pre x post : c = 10 \/ c = 124 -> wf_b (FOne c0 pre x post) = true -> mem c (one_line c0 pre x post) = false.
+  Proof. intros Hc Hw. destruct (one_wf _ _ _ _ Hw) as (Hok & _). exact (inl_no c (c0 :: pre) x post Hc Hok). Qed.
+
+  Lemma one_block_line c0 pre x post : wf_b (FOne c0 pre x post) = true -> block_line (one_line c0 pre x post).
+  Proof.
+    intros Hw. destruct (one_wf _ _ _ _ Hw) as (_ & Hfst & _ & Hlst).
+    split; [exact Hfst|]. split; [apply (one_no 124); [right; reflexivity|exact Hw]|]. split; [discriminate|exact Hlst].
+  Qed.
+
+  Lemma one_text c0 pre x post : text_of (spell (FOne c0 pre x post)) = [one_line c0 pre x post ++ [10]].
+  Proof. reflexivity. Qed.
+
+  Lemma one_try rec c0 pre x post rest ln st : wf_b (FOne c0 pre x post) = true -> (rest = [] \/ exists B, rest = NL :: B) ->
+    try_types types rec types (text_of (spell (FOne c0 pre x post)) ++ rest) ln st = Some (pre_of md ln (FOne c0 pre x post), 1%nat, st).
+  Proof.
+    intros Hw Hrest. rewrite one_text. cbn [app pre_of].
+    apply (try_types_para_lines types rec (one_line c0 pre x post) rest ln st _ _ (one_block_line _ _ _ _ Hw)); [|exact Hp].
+    destruct Hrest as [->|[B ->]]; [reflexivity|]. cbn [para_loop]. rewrite nl_blank. reflexivity.
+  Qed.
+
+  Lemma one_tokenize f c0 pre x post ln st : wf_b (FOne c0 pre x post) = true ->
+    tokenize_block types (S f) (text_of (spell (FOne c0 pre x post))) ln st = ([pre_of md ln (FOne c0 pre x post)], false, st).
+  Proof.
+    intros Hw. pose proof (one_try (tokenize_block types f) c0 pre x post [] ln st Hw (or_introl eq_refl)) as T. rewrite app_nil_r in T. rewrite one_text in *.
+    cbn [tokenize_block length dispatch_loop]. rewrite T. reflexivity.
+  Qed.
+
   Lemma cont_ok_reflect l : cont_okb l = true -> bl_cont l /\ mem 9 l = false.
   Proof.
     unfold cont_okb. intros H. repeat rewrite andb_true_iff in H. destruct H as [[H1 H2] H3]. apply block_line_b_spec in H1. apply negb_true_iff in H3.
@@ -712,7 +752,7 @@ Section Main.
   Lemma first_line_follower t : is_item t = false -> wf_b t = true ->
     exists l2 more, text_of (spell t) = l2 :: more /\ (forall p, 0 < p -> parse_continuation l2 p = None) /\ parse_marker l2 = None.
   Proof.
-    intros Hi Hw. destruct t as [c body more|ch n content|ts|mk pad ts|mk pad ts bl next|lv hc hb|rc rn|e0 epre ech edbl ew epost|l0 lpre lw ldest lpost|s0 st0' sgs|k0 kpre kcode kpost|b0 bbody bk bmore]; [| | |discriminate|discriminate| | | | | | |].
+    intros Hi Hw. destruct t as [c body more|ch n content|ts|mk pad ts|mk pad ts bl next|lv hc hb|rc rn|e0 epre ech edbl ew epost|l0 lpre lw ldest lpost|s0 st0' sgs|k0 kpre kcode kpost|b0 bbody bk bmore|o0 opre ox opost]; [| | |discriminate|discriminate| | | | | | | |].
     - destruct (wf_para c body more Hw) as (Hw' & Hnm & _).
       destruct Hw' as (Hf1 & _ & _ & _). cbn [hd] in Hf1.
       assert (Hc : first_ok c = true).
@@ -806,6 +846,16 @@ Section Main.
       split.
       + intros p Hp0. change ((xc :: xt) ++ [10]) with (line_of 0 xc xt). apply parse_continuation_short; assumption.
       + unfold parse_marker. change ((xc :: xt) ++ [10]) with (xc :: (xt ++ [10])). rewrite rmatch_first by exact Hnm. reflexivity.
+    - destruct (one_wf _ _ _ _ Hw) as (Hok & Hfst & Hnm & _). rewrite one_text.
+      eexists. eexists. split; [reflexivity|].
+      assert (Hc : first_ok o0 = true).
+      { apply nonspace_first_ok. unfold nonspace. change (cat_match CatSpace o0) with (is_space_c o0). rewrite (plain_first_not_space o0 Hfst). reflexivity. }
+      assert (Hb : mem 10 (one_body opre ox opost) = false).
+      { pose proof (one_no 10 o0 opre ox opost (or_introl eq_refl) Hw) as M. unfold one_line, mem in M. cbn [existsb] in M. apply orb_false_iff in M as [_ M]. exact M. }
+      split.
+      + intros p Hp0. change (one_line o0 opre ox opost ++ [10]) with (line_of 0 o0 (one_body opre ox opost)). apply parse_continuation_short; assumption.
+      + unfold parse_marker, one_line. change ((o0 :: one_body opre ox opost) ++ [10]) with (o0 :: (one_body opre ox opost ++ [10])).
+        rewrite rmatch_first by exact Hnm. reflexivity.
   Qed.
 
   (* ---- lists: List.read over the items of a list ---- *)
@@ -895,7 +945,7 @@ Section Main.
       eexists. eexists. eexists. eexists. eexists. split; [reflexivity|]. split; [apply marker_line_cont; assumption|].
       split; [apply (parse_marker_line mk pad c0 body0 Hmk Hpad Hc0)|]. split; [exact Hth|].
       destruct (marker_first mk Hmk) as (m0 & mr & Em & Hm0). rewrite Em. eexists. eexists. split; [reflexivity|exact Hm0]. }
-    destruct t as [c body more|ch n content|ts|mk pad ts|mk pad ts bl next|lv hc hb|rc rn|e0 epre ech edbl ew epost|l0 lpre lw ldest lpost|s0 st0' sgs|k0 kpre kcode kpost|b0 bbody bk bmore]; try discriminate.
+    destruct t as [c body more|ch n content|ts|mk pad ts|mk pad ts bl next|lv hc hb|rc rn|e0 epre ech edbl ew epost|l0 lpre lw ldest lpost|s0 st0' sgs|k0 kpre kcode kpost|b0 bbody bk bmore|o0 opre ox opost]; try discriminate.
     - cbn [wf_b] in Hw. cbn [spell marker_of]. rewrite <- (app_nil_r (item_lines mk pad _)). apply G. exact Hw.
     - cbn [wf_b] in Hw. repeat rewrite andb_true_iff in Hw. destruct Hw as [[[Hw _] _] _]. cbn [spell marker_of]. apply G.
       repeat rewrite andb_true_iff. exact Hw.
@@ -914,7 +964,7 @@ Section Main.
         read_list types (tokenize_block types (S f')) fuel (text_of (spell t) ++ tail) ln leader prev acc consumed st =
         (rev acc ++ chain_items md ln t, (consumed + length (text_of (spell t)))%nat, st_after st t).
     Proof.
-      induction t as [| | | mk pad ts | mk pad ts bl next IH | | | | | | | ]; intros Hi Hw Hd tail Htail fuel ln st leader prev acc consumed Hn Hlead Hprev; try discriminate.
+      induction t as [| | | mk pad ts | mk pad ts bl next IH | | | | | | | | ]; intros Hi Hw Hd tail Htail fuel ln st leader prev acc consumed Hn Hlead Hprev; try discriminate.
       - (* the last item *)
         cbn [wf_b] in Hw. destruct (item_parts mk pad ts Hw) as (Hmk & Hpad & Hs & Hall & c0 & body0 & rest & El & Hc0 & Hb0 & Hrest & Hlast & Hth).
         cbn [spell chain_items st_after] in *. rewrite El in *. rewrite text_item in * by exact Hmk. cbn [hd] in Hprev.
@@ -1054,14 +1104,14 @@ Section Main.
           rewrite text_item by exact Hmk'. cbn [app hd].
           apply (list_start_line mk pad c0 body0 Hmk' (proj1 Hpad)). apply nonspace_first_ok. exact Hc0. }
         replace l2 with (hd [] (text_of (spell t))) by (rewrite E2; reflexivity).
-        destruct t as [ | | |mk pad ts|mk pad ts bl next| | | | | | | ]; try discriminate.
+        destruct t as [ | | |mk pad ts|mk pad ts bl next| | | | | | | | ]; try discriminate.
         - cbn [wf_b] in Hw. cbn [spell]. rewrite <- (app_nil_r (item_lines mk pad _)). apply G. exact Hw.
         - cbn [wf_b] in Hw. repeat rewrite andb_true_iff in Hw. destruct Hw as [[[Hw _] _] _]. cbn [spell]. apply G.
           repeat rewrite andb_true_iff. exact Hw. }
       rewrite Ls. change (l2 :: more ++ tail) with ((l2 :: more) ++ tail). rewrite <- E2.
       assert (Hlen : (chain_len t <= S (length (text_of (spell t) ++ tail)))%nat).
       { clear -Hw. assert (G : forall t0, wf_b t0 = true -> (chain_len t0 <= S (length (text_of (spell t0))))%nat).
-        { induction t0 as [| | | | mk0 pad0 ts0 bl0 next0 IHn | | | | | | | ]; intros Hw0; cbn [chain_len]; try lia.
+        { induction t0 as [| | | | mk0 pad0 ts0 bl0 next0 IHn | | | | | | | | ]; intros Hw0; cbn [chain_len]; try lia.
           cbn [wf_b] in Hw0. repeat rewrite andb_true_iff in Hw0. destruct Hw0 as [[[Hw0 _] _] Hwn]. specialize (IHn Hwn).
           assert (Hw' : marker_okb mk0 && Nat.leb 1 pad0 && Nat.leb pad0 4 && seq_ok_b ts0 && forallb wf_b ts0 && good_b (join_blank (map spell ts0)) &&
                         negb (thematic_start (item_first_line mk0 pad0 (join_blank (map spell ts0)))) = true) by (repeat rewrite andb_true_iff; exact Hw0).
@@ -1072,7 +1122,7 @@ Section Main.
       rewrite (chain_read t Hi Hw Hd tail Htail (S (length (text_of (spell t) ++ tail))) ln st None None [] 0%nat Hlen I (or_introl eq_refl)).
       cbn [rev app Nat.add]. rewrite (pre_of_chain md t ln Hi Hw).
       assert (Efix : fix_last (chain_items md ln t) = chain_items md ln t).
-      { clear -Hi Hw. revert ln. induction t as [| | | mk pad ts | mk pad ts bl next IH | | | | | | | ]; intros ln; try discriminate.
+      { clear -Hi Hw. revert ln. induction t as [| | | mk pad ts | mk pad ts bl next IH | | | | | | | | ]; intros ln; try discriminate.
         - cbn [chain_items]. unfold fix_last. cbn [rev app]. f_equal. f_equal.
           destruct md; [cbn [negb andb]; apply andb_false_r|]. cbn [negb andb]. rewrite pre_seq_length. unfold nlines. apply andb_diag.
         - cbn [wf_b] in Hw. repeat rewrite andb_true_iff in Hw. destruct Hw as [[[_ Hin] _] Hwn].
@@ -1115,7 +1165,7 @@ Section Main.
 
   Lemma C_from f : (forall f', f = S f' -> Q f' /\ QN f') -> C f.
   Proof.
-    intros HQ t ln st Hw Hd. destruct t as [c body more|ch n content|ts|mk pad ts|mk pad ts bl next|lv hc hb|rc rn|e0 epre ech edbl ew epost|l0 lpre lw ldest lpost|s0 st0' sgs|k0 kpre kcode kpost|b0 bbody bk bmore].
+    intros HQ t ln st Hw Hd. destruct t as [c body more|ch n content|ts|mk pad ts|mk pad ts bl next|lv hc hb|rc rn|e0 epre ech edbl ew epost|l0 lpre lw ldest lpost|s0 st0' sgs|k0 kpre kcode kpost|b0 bbody bk bmore|o0 opre ox opost].
     - split; [cbn [spell text_of map]; discriminate|]. intros B _. rewrite para_try_app by exact Hw. reflexivity.
     - split; [destruct (fence_wf ch n content Hw) as ((_ & H3) & _); rewrite fence_text by lia; discriminate|].
       intros B _. rewrite fence_try by exact Hw. reflexivity.
@@ -1146,6 +1196,7 @@ Section Main.
     - split.
       + rewrite (fbrk_text _ _ _ _ Hw). cbn [wf_b] in Hw. destruct (brk_para_lines _ Hw) as (x & r & E & _). rewrite E. discriminate.
       + intros B _. rewrite (fbrk_try _ _ _ _ _ (NL :: B) ln st Hw) by (right; exists B; reflexivity). reflexivity.
+    - split; [rewrite one_text; discriminate|]. intros B _. rewrite (one_try _ _ _ _ _ (NL :: B) ln st Hw) by (right; exists B; reflexivity). rewrite one_text. reflexivity.
   Qed.
 
   Lemma Q_from f : P f -> C f -> Q f.
@@ -1225,7 +1276,7 @@ Section Main.
 
   Lemma P_succ f : Q f -> QN f -> P (S f).
   Proof.
-    intros HQ HQN t ln st Hw Hd. destruct t as [c body more|ch n content|ts|mk pad ts|mk pad ts bl next|lv hc hb|rc rn|e0 epre ech edbl ew epost|l0 lpre lw ldest lpost|s0 st0' sgs|k0 kpre kcode kpost|b0 bbody bk bmore].
+    intros HQ HQN t ln st Hw Hd. destruct t as [c body more|ch n content|ts|mk pad ts|mk pad ts bl next|lv hc hb|rc rn|e0 epre ech edbl ew epost|l0 lpre lw ldest lpost|s0 st0' sgs|k0 kpre kcode kpost|b0 bbody bk bmore|o0 opre ox opost].
     - rewrite para_tokenize by exact Hw. reflexivity.
     - rewrite fence_tokenize by exact Hw. reflexivity.
     - cbn [wf_b] in Hw. repeat rewrite andb_true_iff in Hw. destruct Hw as [[Hs Hall] Hg].
@@ -1242,11 +1293,12 @@ Section Main.
     - rewrite sent_tokenize by exact Hw. reflexivity.
     - rewrite tick_tokenize by exact Hw. reflexivity.
     - rewrite fbrk_tokenize by exact Hw. reflexivity.
+    - rewrite one_tokenize by exact Hw. reflexivity.
   Qed.
 
   Lemma P_zero : P 0.
   Proof.
-    intros t ln st Hw Hd. destruct t as [c body more|ch n content|ts|mk pad ts|mk pad ts bl next|lv hc hb|rc rn|e0 epre ech edbl ew epost|l0 lpre lw ldest lpost|s0 st0' sgs|k0 kpre kcode kpost|b0 bbody bk bmore]; [| |cbn [depth] in Hd; lia|cbn [depth] in Hd; lia|cbn [depth] in Hd; lia| | | | | | |].
+    intros t ln st Hw Hd. destruct t as [c body more|ch n content|ts|mk pad ts|mk pad ts bl next|lv hc hb|rc rn|e0 epre ech edbl ew epost|l0 lpre lw ldest lpost|s0 st0' sgs|k0 kpre kcode kpost|b0 bbody bk bmore|o0 opre ox opost]; [| |cbn [depth] in Hd; lia|cbn [depth] in Hd; lia|cbn [depth] in Hd; lia| | | | | | | |].
     - rewrite para_tokenize by exact Hw. reflexivity.
     - rewrite fence_tokenize by exact Hw. reflexivity.
     - rewrite head_tokenize by exact Hw. reflexivity.
@@ -1256,6 +1308,7 @@ Section Main.
     - rewrite sent_tokenize by exact Hw. reflexivity.
     - rewrite tick_tokenize by exact Hw. reflexivity.
     - rewrite fbrk_tokenize by exact Hw. reflexivity.
+    - rewrite one_tokenize by exact Hw. reflexivity.
   Qed.
 
   Theorem fragment_all : forall f, P f /\ Q f /\ QN f.
@@ -1371,6 +1424,7 @@ Section TokOf.
     | FSent c0 t0 gs => Paragraph (RawText (c0 :: t0) :: mix_toks gs)
     | FTick c0 pre code post => Paragraph (RawText (c0 :: pre) :: code_of code :: raw_if post)
     | FBrk c body k more => Paragraph (brk_toks ((c :: body, k) :: more))
+    | FOne c0 pre x post => Paragraph (RawText (c0 :: pre) :: inl_tok x :: raw_if post)
     end.
   Fixpoint tok_seq (ts : list ftree) : list tok :=
     match ts with
@@ -1388,8 +1442,8 @@ Section Tokens.
   Hypothesis Hemph : emph_spans span_types = true.
   Hypothesis Hinert : inert_spans span_types = true.
   Hypothesis Hleaf : leaf_spans span_types = true.
-  Lemma Hrefs : ref_spans span_types = true.  Proof. unfold leaf_spans in Hleaf. apply andb_true_iff in Hleaf. tauto. Qed.
-  Lemma Hcodes : code_spans span_types = true.  Proof. unfold leaf_spans in Hleaf. apply andb_true_iff in Hleaf. tauto. Qed.
+  Lemma Hrefs : ref_spans span_types = true.  Proof. unfold leaf_spans in Hleaf. repeat rewrite andb_true_iff in Hleaf. tauto. Qed.
+  Lemma Hcodes : code_spans span_types = true.  Proof. unfold leaf_spans in Hleaf. repeat rewrite andb_true_iff in Hleaf. tauto. Qed.
   Hypothesis Hfn : fn = [].       (* the trees of the fragment define no link reference, so that "[b]" in a paragraph is text *)
 
   Lemma build_para c body more ln : wf_b (FPara c body more) = true ->
@@ -1484,6 +1538,18 @@ Section Tokens.
     rewrite (breaks_in_paragraph_text span_types fn _ Hquiet Hne Hok). reflexivity.
   Qed.
 
+  Lemma build_one c0 pre x post ln : wf_b (FOne c0 pre x post) = true ->
+    build span_types keep fn (pre_of md ln (FOne c0 pre x post)) = Some (tok_of md (FOne c0 pre x post)).
+  Proof.
+    intros Hw. destruct (one_wf _ _ _ _ Hw) as (Hok & _).
+    cbn [pre_of build tok_of map concat]. rewrite app_nil_r.
+    change (c0 :: one_body pre x post ++ [10]) with (one_line c0 pre x post ++ [10]).
+    destruct (strip_block_line _ (one_block_line _ _ _ _ Hw)) as [S _]. rewrite S. unfold inline.
+    pose proof (one_in_sentence span_types fn (c0 :: pre) x post Hleaf Hok) as T.
+    replace (one_line c0 pre x post) with ((c0 :: pre) ++ inl_text x ++ post) by reflexivity.
+    rewrite T. reflexivity.
+  Qed.
+
   Lemma kids_blank ln : flat_map (fun e => match build span_types keep fn e with Some t => [t] | None => [] end) (blank_entry md ln) = blank_tok md.
   Proof. unfold blank_entry, blank_tok. destruct md; reflexivity. Qed.
 
@@ -1492,7 +1558,7 @@ Section Tokens.
   Proof.
     induction f as [|f IH].
     - intros t ln Hd Hw.
-      destruct t as [c body more|ch n content|ts|mk pad ts|mk pad ts bl next|lv hc hb|rc rn|e0 epre ech edbl ew epost|l0 lpre lw ldest lpost|s0 st0' sgs|k0 kpre kcode kpost|b0 bbody bk bmore]; [apply build_para; exact Hw|reflexivity|cbn [depth] in Hd; lia|cbn [depth] in Hd; lia|cbn [depth] in Hd; lia|apply build_head; exact Hw|apply build_rule; exact Hw|apply build_em; exact Hw|apply build_link; exact Hw|apply build_sent; exact Hw|apply build_tick; exact Hw|apply build_brk; exact Hw].
+      destruct t as [c body more|ch n content|ts|mk pad ts|mk pad ts bl next|lv hc hb|rc rn|e0 epre ech edbl ew epost|l0 lpre lw ldest lpost|s0 st0' sgs|k0 kpre kcode kpost|b0 bbody bk bmore|o0 opre ox opost]; [apply build_para; exact Hw|reflexivity|cbn [depth] in Hd; lia|cbn [depth] in Hd; lia|cbn [depth] in Hd; lia|apply build_head; exact Hw|apply build_rule; exact Hw|apply build_em; exact Hw|apply build_link; exact Hw|apply build_sent; exact Hw|apply build_tick; exact Hw|apply build_brk; exact Hw|apply build_one; exact Hw].
     - assert (Kids : forall ts ln, Forall (fun t => (depth t <= f)%nat) ts -> forallb wf_b ts = true ->
                 flat_map (fun e => match build span_types keep fn e with Some t => [t] | None => [] end) (pre_seq md ln ts) = tok_seq md ts).
       { induction ts as [|t0 r IHr]; intros ln0 Hds Hws; [reflexivity|].
@@ -1500,8 +1566,8 @@ Section Tokens.
         cbn [pre_seq flat_map tok_seq]. rewrite (IH t0 ln0) by assumption. cbn [app]. f_equal.
         destruct r as [|t1 r']; [reflexivity|]. rewrite flat_map_app. rewrite IHr by assumption.
         f_equal. unfold blank_entry, blank_tok. destruct md; reflexivity. }
-      intros t. induction t as [c body more|ch n content|ts|mk pad ts|mk pad ts bl next IHn|lv hc hb|rc rn|e0 epre ech edbl ew epost|l0 lpre lw ldest lpost|s0 st0' sgs|k0 kpre kcode kpost|b0 bbody bk bmore]; intros ln Hd Hw;
-        [apply build_para; exact Hw|reflexivity| | | |apply build_head; exact Hw|apply build_rule; exact Hw|apply build_em; exact Hw|apply build_link; exact Hw|apply build_sent; exact Hw|apply build_tick; exact Hw|apply build_brk; exact Hw].
+      intros t. induction t as [c body more|ch n content|ts|mk pad ts|mk pad ts bl next IHn|lv hc hb|rc rn|e0 epre ech edbl ew epost|l0 lpre lw ldest lpost|s0 st0' sgs|k0 kpre kcode kpost|b0 bbody bk bmore|o0 opre ox opost]; intros ln Hd Hw;
+        [apply build_para; exact Hw|reflexivity| | | |apply build_head; exact Hw|apply build_rule; exact Hw|apply build_em; exact Hw|apply build_link; exact Hw|apply build_sent; exact Hw|apply build_tick; exact Hw|apply build_brk; exact Hw|apply build_one; exact Hw].
       + cbn [wf_b] in Hw. repeat rewrite andb_true_iff in Hw. destruct Hw as [[_ Hall] _].
         rewrite pre_of_quote. cbn [build]. rewrite Kids; [reflexivity| |exact Hall].
         apply children_depth. cbn [depth] in Hd. exact Hd.
@@ -1560,7 +1626,7 @@ Proof.
     { induction ts as [|t0 r IHr]; intros ln0 Hds; [reflexivity|]. inversion Hds; subst.
       cbn [pre_seq flat_map]. rewrite (IH t0 ln0) by assumption. cbn [app].
       destruct r as [|t1 r']; [reflexivity|]. rewrite flat_map_app, IHr by assumption. unfold blank_entry. destruct md; reflexivity. }
-    intros t. induction t as [c body more|ch n content|ts|mk pad ts|mk pad ts bl next IHn|lv hc hb|rc rn|e0 epre ech edbl ew epost|l0 lpre lw ldest lpost|s0 st0' sgs|k0 kpre kcode kpost|b0 bbody bk bmore]; intros ln Hd; try reflexivity.
+    intros t. induction t as [c body more|ch n content|ts|mk pad ts|mk pad ts bl next IHn|lv hc hb|rc rn|e0 epre ech edbl ew epost|l0 lpre lw ldest lpost|s0 st0' sgs|k0 kpre kcode kpost|b0 bbody bk bmore|o0 opre ox opost]; intros ln Hd; try reflexivity.
     + rewrite pre_of_quote. cbn [defs_of]. apply Kids. apply children_depth. cbn [depth] in Hd. exact Hd.
     + rewrite pre_of_item. cbn [defs_of flat_map]. rewrite app_nil_r. apply Kids. apply children_depth. cbn [depth] in Hd. exact Hd.
     + cbn [depth] in Hd. rewrite pre_of_more. cbv zeta.
